@@ -174,7 +174,7 @@ def judgeKept (g : BGeom) (res : Tok) : Option String :=
     | _, _ => some "encode-result-aliased: kept bytes are not UTF-8 any more"
   | _ => some ("encoder-" ++ " ".intercalate res)
 
-def judgeLine (line : String) : String :=
+def judgeSeq (line : String) : String :=
   let (lhs, rhs) := splitArrow (tokens line)
   let rhsS := " ".intercalate rhs
   match lhs with
@@ -282,6 +282,36 @@ def judgeLine (line : String) : String :=
           match bad with
           | [] => s!"OK batch"
           | w :: _ => s!"SPEC batch {w}"
+  | "dbatch" :: n :: gt =>
+    match n.toNat? with
+    | none => "BAD dbatch"
+    | some k =>
+      match pGeoms k gt with
+      | none => "BAD parse"
+      | some gs =>
+        let rs := splitSemi rhs
+        if rs.length != gs.length then s!"SPEC dbatch harness-result-{rhsS}"
+        else
+          let bad := (gs.zip rs).zipIdx.filterMap fun ((g, r), i) =>
+            let guard := Rfc.supported g && Rfc.allFinite fin g && Rfc.firstMemberNonEmpty g
+            let now := r.takeWhile (· ≠ "|")
+            let late := r.drop (now.length + 1)
+            let w : Option String :=
+              if now.head? == some "ok" then
+                (if now.drop 1 != late then
+                  some s!"decode-result-aliased: returned={" ".intercalate (now.drop 1)} after-later-calls={" ".intercalate late}"
+                 else if guard && " ".intercalate now != "ok " ++ Proto.geomStr g then some "decode-of-encode-differs"
+                 else none)
+              else if guard then some s!"decode-of-encode-fails-{" ".intercalate r}"
+              else none
+            w.map fun w => s!"call#{i}({geomClass g}):{w}"
+          let diff := (gs.zip rs).zipIdx.filterMap fun ((g, r), i) =>
+            let now := " ".intercalate (r.takeWhile (· ≠ "|"))
+            if now != modelRt g then some s!"call#{i}({geomClass g}):model={modelRt g} impl={now}" else none
+          match bad, diff with
+          | w :: _, _ => s!"SPEC dbatch {w}"
+          | [], w :: _ => s!"DIFF dbatch {w}"
+          | [], [] => s!"OK dbatch"
   | "fromt" :: th :: tt =>
     match unhexStr th, pTree tt with
     | some ty, some (t, _) =>
@@ -297,6 +327,34 @@ def judgeLine (line : String) : String :=
     else if m == rhsS then "OK fromnil" else s!"DIFF fromnil model={m} impl={rhsS}"
   | "skip" :: _ => "OK skipped"
   | _ => "BAD line"
+
+/-- `cc` lines (concurrent callers of the pure functions): the harness reports the first concurrent answer that
+is not bit-identical to the answer computed alone (or that answer when all agree); it is judged exactly like the
+sequential line of the same operation, class prefix `conc-` -/
+def judgeLine (line : String) : String :=
+  let (lhs, rhs) := splitArrow (tokens line)
+  match lhs with
+  | "cc" :: op :: _ :: _ :: gt =>
+    let seqOp := if op == "enc" then "enc" else if op == "tog" then "tog" else "rt"
+    match rhs with
+    | status :: ans =>
+      if status == "crash" || status == "timeout" then
+        s!"SPEC conc-{op} the-process-died-or-hung-during-concurrent-calls {" ".intercalate rhs}"
+      else if status == "argument-modified" then s!"SPEC conc-{op} argument-modified-by-the-call"
+      else if status == "panic" then s!"SPEC conc-{op} harness-{" ".intercalate rhs}"
+      else
+        let v := judgeSeq (" ".intercalate (seqOp :: gt ++ ["=>"] ++ ans))
+        match v.splitOn " " with
+        | k :: cls :: why =>
+          let why := " ".intercalate why
+          let cls := "-".intercalate ((cls.splitOn "-").drop 1)   -- without the sequential operation's prefix
+          if status == "differs" then
+            (if k == "OK" then s!"DIFF conc-{op}-{cls} concurrent-answer-differs-from-the-answer-computed-alone"
+             else s!"{k} conc-{op}-{cls} concurrent-callers: {why}")
+          else s!"{k} conc-{op}-{cls} {why}"
+        | _ => s!"BAD cc {v}"
+    | [] => "BAD cc"
+  | _ => judgeSeq line
 
 end GeomV.C06
 
